@@ -723,6 +723,8 @@ def run(ctx):
     # ---- T. styles shared through themes;  K. the crop path of console.print on narrow consoles
     _theme_histories(ctx, consoles)
     _crop_histories(ctx, consoles)
+    # ---- N. styled segments with embedded / trailing line feeds through console.print (independent crop spec)
+    _newline_histories(ctx, consoles)
     # ---- E6. through the public API only: Style.parse (lru_cache shared by every console) + console.print(Text)
     _public_api_histories(ctx, consoles)
     # ---- E7. the error branches: ill-formed Color objects
@@ -973,6 +975,110 @@ def _crop_histories(ctx, consoles):
             continue
         segs = [(sg.text, None if sg.style is None else h.handle(sg.style, "rendered"), bool(sg.is_control)) for line in lines for sg in line]
         h.write(cfg, segs, 4, console=con, action=("print(<%d segments, width %d>)" % (len(real), width), lambda c, r=renderable: c.print(r)), tag="#w%d" % width)
+        h.finish()
+    ctx.flush()
+
+
+def crop_spec(segs, width):
+    """The crop step of console.print / console.log, stated independently of rich (ASCII texts: one cell per character):
+    the (character, style) stream is cut at line feeds — every piece keeps the style of the segment it came from, the line
+    feed itself is written unstyled — and every line longer than `width` cells is cut to exactly `width` (what follows
+    the cut on that line is dropped); control segments have no width and are never split."""
+    out, line = [], []
+
+    def flush_line(add_nl):
+        total = sum(len(t) for t, _, c in line if not c)
+        if total > width:
+            used = 0
+            for t, h, c in line:
+                n = 0 if c else len(t)
+                if used + n < width or c:
+                    out.append((t, h, c))
+                    used += n
+                else:
+                    out.append((t[: width - used], h, False))
+                    break
+        else:
+            out.extend(line)
+        if add_nl:
+            out.append(("\n", None, False))
+        del line[:]
+
+    for t, h, c in segs:
+        if "\n" in t and not c:
+            parts = t.split("\n")
+            for k, part in enumerate(parts):
+                if part:
+                    line.append((part, h, False))
+                if k < len(parts) - 1:
+                    flush_line(True)
+        else:
+            line.append((t, h, c))
+    if line:
+        flush_line(False)
+    return out
+
+
+def _newline_histories(ctx, consoles):
+    """Renderables that yield STYLED segments with embedded and trailing line feeds (what a user's __rich_console__ may
+    do; Text / Table / Panel keep line feeds in separate unstyled segments), through console.print with crop on, crop
+    off and soft_wrap, on wide and narrow consoles.  Every character must come out with the style of the segment it
+    was printed with; the expected segments are derived by `crop_spec`, not by calling rich."""
+    from rich.console import Console
+    from rich.segment import Segment
+    from rich.style import Style
+
+    rng = ctx.rng
+    mk_styles = [lambda: Style(bold=True, color="red"), lambda: Style(color="#ff8800", bgcolor="color(100)", link="http://nl"),
+                 lambda: Style(bgcolor="blue", underline=True), lambda: Style(italic=True, link="x")]
+    texts = ["ab\ncd", "x\n", "\nx", "a\n\nb", "\n", "ab\ncd\n", "a long line of thirty characters\nshort", "one\ntwo\nthree\nfour", "tail\n\n"]
+    cons = {}
+
+    def console(cfg, width):
+        c = cons.get((cfg, width))
+        if c is None:
+            cs, nc, t, lw = cfg
+            c = cons[(cfg, width)] = Console(file=io.StringIO(), force_terminal=bool(t), color_system=CS_NAMES[cs], no_color=bool(nc),
+                                             legacy_windows=bool(lw), width=width, _environ={}, markup=False, emoji=False, highlight=False)
+        c.file = io.StringIO()
+        return c
+
+    def one(h, cfg, width, segs, how):
+        con = console(cfg, width)
+        real = [Segment(tx, None if hh is None else h.objs[hh], bool(c)) for tx, hh, c in segs]
+        r = SegsRenderable(real)
+        if how == 0:
+            h.write(cfg, crop_spec(segs, width), 4, console=con, action=("print(<%r>) width=%d" % ([s[0] for s in segs], width), lambda c: c.print(r)), tag="#nl")
+        elif how == 1:
+            h.write(cfg, segs, 4, console=con, action=("print(<%r>, crop=False)" % [s[0] for s in segs], lambda c: c.print(r, crop=False)), tag="#nl")
+        else:
+            h.write(cfg, segs, 4, console=con, action=("print(<%r>, soft_wrap=True)" % [s[0] for s in segs], lambda c: c.print(r, soft_wrap=True)), tag="#nl")
+
+    k = 0
+    for mk in mk_styles:
+        for text in texts:
+            for cs in range(5):
+                k += 1
+                h = History(ctx, consoles, "N-newlines")
+                a = h.new(mk())
+                b = h.new(Style(dim=True))
+                cfg = (cs, (k // 5) % 2 if cs else 0, 0 if k % 7 == 0 else 1, (k // 3) % 2)
+                for how in (0, 1, 2):
+                    one(h, cfg, WIDTH, [(text, a, False)], how)
+                one(h, cfg, 8, [(text, a, False)], 0)
+                one(h, cfg, WIDTH, [("p", None, False), (text, a, False), ("q\nr", b, False), ("s", a, False)], k % 3)
+                one(h, cfg, 6, [("pq", b, False), (text, a, False), ("\r", a, True), ("rest of it", a, False)], 0)
+                h.finish()
+    for _ in range(150 if ctx.quick else 5000):
+        h = History(ctx, consoles, "N-newlines-random")
+        for _ in range(rng.randint(1, 3)):
+            h.new(rng.choice(mk_styles)() if rng.random() < 0.6 else rand_style(rng)[0])
+        segs = []
+        for _ in range(rng.randint(1, 4)):
+            control = rng.random() < 0.12
+            tx = rng.choice(["\r", "ctl\nx"]) if control else rng.choice(texts + ["abc", "", "0123456789", " "])
+            segs.append((tx, rng.randrange(len(h.objs)) if rng.random() < 0.8 else None, control))
+        one(h, rand_cfg(rng), rng.choice([4, 8, 8, 15, WIDTH]), segs, rng.choice([0, 0, 1, 2]))
         h.finish()
     ctx.flush()
 
